@@ -1212,7 +1212,11 @@ def more_rebuilds_from_model_level_regrouping(case, outcome, atoms):
     holder of a name lands on the renamed model's table and rebuilds it once
     more than the one-at-a-time run did."""
     flags, _trail_ = c03_flags(case, outcome)
-    hit = {u for u, fl in flags.items() if 'model_level' in fl}
+    # ... and likewise the other findings in which the batch applies a mutation to the
+    # wrong holder of a field name (F-C03-6 rename chains, F-C03-13 name reuse with a
+    # delete): the batch executes different operations than the one-at-a-time run
+    hit = {u for u, fl in flags.items()
+           if fl & {'model_level', 'multi_rename', 'delete_name_reuse'}}
     if not hit:
         return atoms
     return [a for a in atoms
